@@ -132,52 +132,53 @@ def stage1 (nd : Bool) (msg : Bytes) : Option (Array Nat) :=
 
 -- Index buffers (rounds) -------------------------------------------------------------------------------
 
-/-- Number of indices `< upto` at or after array position `k` (indices sorted ascending). -/
-def countBelow (idx : Array Nat) (k upto : Nat) : Nat := Id.run do
-  let mut j := k
-  while j < idx.size ∧ idx[j]! < upto do j := j + 1
-  return j
+/-- First array position at or after `k` whose index is `≥ upto` (indices sorted ascending). -/
+def countBelow (idx : Array Nat) (k upto : Nat) : Nat :=
+  if h : k < idx.size then
+    if idx[k] < upto then countBelow idx (k + 1) upto else k
+  else k
+termination_by idx.size - k
+
+/-- First call of a round: whole 64-byte blocks are processed until the buffer holds at least
+    `indexSizeWithSafetyBuffer` entries or the whole blocks are used up. Returns the buffer, the next
+    unassigned index position and the byte position reached. -/
+def fillBlocks (idx : Array Nat) (fullEnd : Nat) : (fuel : Nat) → (cur : Array Nat) → (k p : Nat) → Array Nat × Nat × Nat
+  | 0, cur, k, p => (cur, k, p)
+  | fuel + 1, cur, k, p =>
+    if p < fullEnd then
+      let j := countBelow idx k (p + 64)
+      let cur := cur ++ idx.extract k j
+      if cur.size ≥ cindexSizeWithSafetyBuffer then (cur, j, p + 64)
+      else fillBlocks idx fullEnd fuel cur j (p + 64)
+    else (cur, k, p)
+
+/-- One round per iteration: `base` start of the remaining message (multiple of 64), `k` next index not
+    yet assigned to a buffer, `carry` the index stripped from the previous buffer. -/
+def roundsGo (msg : Bytes) (idx : Array Nat) : (fuel : Nat) → (base k : Nat) → (carry : Option Nat) → List (Array Nat)
+  | 0, _, _, _ => []
+  | fuel + 1, base, k, carry =>
+    let n := msg.size
+    if base < n then
+      let cur0 : Array Nat := match carry with | some c => #[c] | none => #[]
+      let fullEnd := base + ((n - base) / 64) * 64
+      let (cur1, k1, p1) := fillBlocks idx fullEnd (n / 64 + 1) cur0 k base
+      -- tail call when at most 64 bytes remain
+      let (cur2, k2, p2) :=
+        if n - p1 ≤ 64 ∧ p1 < n then
+          let j := countBelow idx k1 n
+          (cur1 ++ idx.extract k1 j, j, n)
+        else (cur1, k1, p1)
+      if p2 == n then [cur2]
+      else if cur2.size > 0 ∧ !isMarkup (msg.getD cur2.back! 0) then
+        cur2.pop :: roundsGo msg idx fuel p2 k2 (some cur2.back!)
+      else cur2 :: roundsGo msg idx fuel p2 k2 none
+    else []
 
 /-- The index buffers handed from stage 1 to stage 2, as lists of absolute positions, following the
     block loop of `findStructuralIndices`: a buffer is closed once it holds at least
     `indexSizeWithSafetyBuffer` entries after a whole 64-byte block; if at most 64 bytes then remain
     they are processed into the same buffer; a trailing non-markup index of a non-final buffer is
     stripped and re-issued as the first entry of the next one. -/
-def rounds (msg : Bytes) (idx : Array Nat) : Array (Array Nat) := Id.run do
-  let n := msg.size
-  let mut out : Array (Array Nat) := #[]
-  let mut base := 0           -- start of the remaining message (multiple of 64)
-  let mut k := 0              -- next index not yet assigned to a buffer
-  let mut carry : Option Nat := none
-  let mut fuel := n + 2
-  while base < n ∧ fuel > 0 do
-    fuel := fuel - 1
-    let mut cur : Array Nat := match carry with | some c => #[c] | none => #[]
-    carry := none
-    let fullEnd := base + ((n - base) / 64) * 64
-    let mut p := base
-    -- first call: whole blocks until the buffer is full
-    let mut stop := false
-    while p < fullEnd ∧ !stop do
-      let j := countBelow idx k (p + 64)
-      for t in [k:j] do cur := cur.push idx[t]!
-      k := j
-      p := p + 64
-      if cur.size ≥ cindexSizeWithSafetyBuffer then stop := true
-    -- tail call when at most 64 bytes remain
-    if n - p ≤ 64 ∧ p < n then
-      let j := countBelow idx k n
-      for t in [k:j] do cur := cur.push idx[t]!
-      k := j
-      p := n
-    if p == n then
-      out := out.push cur
-    else
-      if cur.size > 0 ∧ !isMarkup (msg.getD cur.back! 0) then
-        carry := some cur.back!
-        cur := cur.pop
-      out := out.push cur
-    base := p
-  return out
+def rounds (msg : Bytes) (idx : Array Nat) : Array (Array Nat) := (roundsGo msg idx (msg.size + 2) 0 0 none).toArray
 
 end SJ
